@@ -270,7 +270,7 @@ def exclusiveFindings (label : String) (p4 : Json) (counterless : Bool := false)
   | (v, key) :: _ => [⟨"C15", s!"{label}: tunnel-peer ID {v} is referenced by the installed entry {key} but has no tunnel_peers entry (released while a live session uses it)"⟩])
 
 /-- C15: pool invariants of the model state (evaluated, not assumed): free ∪ held is duplicate-free and inside the universe -/
-def poolFindings (label : String) (x : World4) (p4 : Json) (skip : List (Nat × Nat) := []) : List Finding :=
+def poolFindings (label : String) (x : World4) (p4 : Json) (skip : List (Nat × Nat) := []) (ctrCells : Nat := 1024) : List Finding :=
   let st := x.c.st
   let so := (getObj? p4 "stats").getD Json.null
   let ss := live x
@@ -286,7 +286,7 @@ def poolFindings (label : String) (x : World4) (p4 : Json) (skip : List (Nat × 
       [⟨"C15", s!"{label}: the {k} pool holds {free} free cells and the plug-in's meters account for {held}: together not the {size} cells the pool was created with (a cell left its pool without an owner, or entered it from another pool)"⟩] else []
   books "application-meter" (getNat so "app_free") (getNat so "app_held") 1023 ++
   books "session-meter" (getNat so "sess_free") (getNat so "sess_held") 1023 ++
-  uni "counter" (getNat so "ctr_free") heldCtr.eraseDups.length 1024 ++
+  uni "counter" (getNat so "ctr_free") heldCtr.eraseDups.length ctrCells ++
   uni "application-meter" (getNat so "app_free") heldApp.eraseDups.length 1023 ++
   uni "session-meter" (getNat so "sess_free") heldSess.eraseDups.length 1023 ++
   (if !nodupNat heldCtr then [⟨"C15", s!"{label}: two live PDRs hold the same counter cell"⟩] else []) ++
@@ -337,7 +337,7 @@ def common (s : St4) (label : String) (obs : Json) (x' : World4) (cause : Nat) (
   let so := (getObj? p4 "stats").getD Json.null
   let idle : List Finding :=
     if !(live x').isEmpty ∨ so == Json.null then [] else
-    let want : List (String × Nat) := [("ctr_free", 1024), ("app_free", 1023), ("sess_free", 1023), ("peer_pool", 253), ("app_pool", 254),
+    let want : List (String × Nat) := [("ctr_free", Up4.ctrCells s.cfg4), ("app_free", 1023), ("sess_free", 1023), ("peer_pool", 253), ("app_pool", 254),
       ("peers", 0), ("apps", 0), ("meters", 0), ("ue2f", 0), ("f2ue", 0)]
     let bad := want.filter fun (k, v) => getNat so k != v
     let extra := (obsEntries p4).filter fun e => e.table != Gen.P4Constants.TablePreQosPipeInterfaces
@@ -347,7 +347,7 @@ def common (s : St4) (label : String) (obs : Json) (x' : World4) (cause : Nat) (
   -- conditions on the pools persist: each is reported at the event that introduces it
   let strip (m : String) : String := ((m.splitOn ": ").drop 1).foldl (· ++ ·) ""
   let liveSkip := s.createdInMod.filter fun (f, id) => (live x').any fun ses => ses.lseid == f && ses.pdrs.any (·.pdrID == id)
-  let pf := poolFindings label x' p4 liveSkip ++ exclusiveFindings label p4 (!liveSkip.isEmpty)
+  let pf := poolFindings label x' p4 liveSkip (Up4.ctrCells s.cfg4) ++ exclusiveFindings label p4 (!liveSkip.isEmpty)
   let newPf := pf.filter fun f => !s.seenPool.contains (strip f.msg)
   ({ s'' with seenPool := pf.map fun f => strip f.msg }, rf ++ sf ++ validityFindings label rpcs ++ failedWriteFindings label rpcs cause ++ newPf ++ imf ++ idle)
 
@@ -371,7 +371,7 @@ def step (s : St4) (n : Nat) (line : String) : St4 × List Finding :=
       let s : St4 := {}
       ({ s with cfg := { accessIP := getNat j "access", coreIP := 0, ueAlloc := getBool j "ueAlloc", endMarker := getBool j "endMarker", qci := [] },
                 cfg4 := { accessIP := getNat j "access", accessLen := getNat p "accessLen", uePool := pool, sliceID := getNat p "slice",
-                          defaultTC := getNat p "defaultTC", qfiToTC := tcs },
+                          defaultTC := getNat p "defaultTC", qfiToTC := tcs, ctrSize := getNat p "ctrSize" },
                 poolBase := if getBool j "ueAlloc" then some pool else none }, [])
     | "start" =>
       -- a new incarnation against the switch as the previous one left it
